@@ -217,7 +217,8 @@ def run(ctx: Ctx):
             if f is not None:
                 read_role = roles[idx][f[1] - 1] + " overwritten by " + (roles[idx][f[2] - 1] if f[2] else "nothing")
         ctx.violate(f"[{kinds[idx]}] {tail[0]}{' (' + read_role + ')' if read_role else ''}: ops {c['ops']} init {c['init']} registers {c['reg']} (before: {c['pre']}) pool {c['pool']}",
-                    {"clause": tail[0], "target": kinds[idx], "clobbered": read_role, "case": c}, clause=tail[0])
+                    {"clause": tail[0], "target": kinds[idx], "clobbered": read_role,
+                     "infinite_registers_used": any(r.startswith(("j_", "fj_", "inf_reg_")) for r in c["reg"]), "case": c}, clause=tail[0])
     ctx.coverage.update({"evaluations": len(cases), "distinct_nontrivial": len({repr(c) for c in cases}), "reported_failures": failed, "judge_states": res.states,
                          "rule": "seeded single-block functions: RISC-V li/add/sub/mul/mv with pre-allocated arguments/results, zero constants, pools of 1-6 registers "
                                  "(+infinite); riscv_scf.for loops (0-2 carried variables, nesting depth 2) unrolled twice; x86 two-address single-block functions; test.allocatable with in/out/inout groups (inout = last use), 2-register pool (+infinite); distinct = distinct allocated blocks"})
